@@ -12,6 +12,8 @@ import (
 	"bytes"
 	"errors"
 	"fmt"
+	"os"
+	"path/filepath"
 	"strconv"
 	"time"
 
@@ -103,8 +105,9 @@ func sizeScenario(ctx *common.Ctx) error {
 		if err != nil {
 			return err
 		}
+		remoteID := conn.NewMessageID()
 		u := imap.NewMessagesCreated(false, &imap.MessageCreated{
-			Message:       imap.Message{ID: conn.NewMessageID(), Flags: imap.NewFlagSet(), Date: time.Now()},
+			Message:       imap.Message{ID: remoteID, Flags: imap.NewFlagSet(), Date: time.Now()},
 			Literal:       lit,
 			MailboxIDs:    []imap.MailboxID{mboxID},
 			ParsedMessage: pm,
@@ -114,6 +117,32 @@ func sizeScenario(ctx *common.Ctx) error {
 			return nil
 		}
 		want = append(want, entry{"CONNECTOR", lit})
+
+		// 3b. a second connector message whose content the connector then replaces (MessageUpdated with a new literal)
+		cur("connector message updated")
+		old := gen("connector, first version")
+		pmOld, err := imap.NewParsedMessage(old)
+		if err != nil {
+			return err
+		}
+		rid2 := conn.NewMessageID()
+		u1 := imap.NewMessagesCreated(false, &imap.MessageCreated{
+			Message: imap.Message{ID: rid2, Flags: imap.NewFlagSet(), Date: time.Now()}, Literal: old, MailboxIDs: []imap.MailboxID{mboxID}, ParsedMessage: pmOld})
+		if err, acked := conn.Push(u1, 30*time.Second); err != nil || !acked {
+			res.Infra("size scenario: connector update not applied: %v acked=%v", err, acked)
+			return nil
+		}
+		newer := gen("connector, second version")
+		pmNew, err := imap.NewParsedMessage(newer)
+		if err != nil {
+			return err
+		}
+		u2 := imap.NewMessageUpdated(imap.Message{ID: rid2, Flags: imap.NewFlagSet(), Date: time.Now()}, newer, []imap.MailboxID{mboxID}, pmNew, false)
+		if err, acked := conn.Push(u2, 30*time.Second); err != nil || !acked {
+			res.Infra("size scenario: MessageUpdated not applied: %v acked=%v", err, acked)
+			return nil
+		}
+		want = append(want, entry{"CONNECTOR-UPDATED", newer})
 	} else {
 		res.Infra("size scenario: mailbox id of demo unknown to the connector")
 		return nil
@@ -169,6 +198,10 @@ func sizeScenario(ctx *common.Ctx) error {
 			}
 			seen[how] = true
 			res.Count("size-scenario " + how)
+			if n := bytes.Count(body, []byte("X-Pm-Gluon-Id:")); n != 1 {
+				res.Fail(fmt.Sprintf("BODY[]-HAS-%d-ID-LINES", n), fmt.Sprintf("%s message %d: %s", box, seq, short(body)), map[string]string{"message": short(body)})
+				continue
+			}
 			if how == "?" {
 				res.Fail("SIZE-SCENARIO BODY[] is not an entered message plus ID line", fmt.Sprintf("%s %d: %s", box, seq, short(body)), nil)
 				continue
@@ -179,6 +212,46 @@ func sizeScenario(ctx *common.Ctx) error {
 				continue
 			}
 			res.Nontrivial("size-scenario:" + how)
+
+			// the cache file of an appended message is lost: the literal is downloaded from the connector again; the
+			// first and every later FETCH must give the same BODY[] (one ID line) that RFC822.SIZE announces
+			if how == "APPEND" && box == "demo" {
+				m := reIDLine.FindSubmatch(body)
+				removed := 0
+				filepath.Walk(s.Dir, func(path string, info os.FileInfo, err error) error {
+					if err == nil && !info.IsDir() && info.Name() == string(m[1]) {
+						if os.Remove(path) == nil {
+							removed++
+						}
+					}
+					return nil
+				})
+				if removed != 1 {
+					res.Infra("size scenario: cache file of %s not found (%d)", m[1], removed)
+					continue
+				}
+				for round := 1; round <= 3; round++ {
+					cur(fmt.Sprintf("fetch %d after the cache file was lost", round))
+					f2, err := fetch(c, seq, "RFC822.SIZE BODY.PEEK[] RFC822")
+					if err != nil {
+						return err
+					}
+					res.Evaluations++
+					if f2.Status != "OK" || !f2.Parsed || len(f2.Items) < 3 {
+						res.Fail("SIZE-SCENARIO fetch after cache loss not answered", fmt.Sprintf("round %d status=%s", round, f2.Status), nil)
+						break
+					}
+					sz, _ := strconv.Atoi(f2.Items[0].Text)
+					if sz != len(f2.Items[1].Lit) || !bytes.Equal(f2.Items[1].Lit, body) || !bytes.Equal(f2.Items[2].Lit, body) {
+						res.Fail(fmt.Sprintf("BODY[]-CHANGES-AFTER-CACHE-LOSS fetch=%d", round),
+							fmt.Sprintf("RFC822.SIZE %d; BODY[] %d bytes, RFC822 %d bytes, before the loss %d bytes; ID lines now %d", sz, len(f2.Items[1].Lit), len(f2.Items[2].Lit), len(body), bytes.Count(f2.Items[1].Lit, []byte("X-Pm-Gluon-Id:"))),
+							map[string]string{"message": short(f2.Items[1].Lit)})
+						break
+					}
+					res.Count("size-scenario CACHE-LOST")
+					res.Nontrivial(fmt.Sprintf("size-scenario:cache-lost-%d", round))
+				}
+			}
 		}
 		if len(seen) != len(want) {
 			res.Fail("SIZE-SCENARIO missing message in "+box, fmt.Sprintf("found %v", seen), nil)
